@@ -378,6 +378,8 @@ def check_modular(case):
         o = exc_outcome(e)
         return FAIL('ia-modular-raises:%s:%s' % (kind, o[1]), desc + '\nmodular specification raised %s: %s at %s' % (o[1], o[3], o[4]), labels)
     msg = C09.compare(kind, mod, inl, f)
+    if msg == 'NAN':
+        return DISCARD('nan', labels)
     if msg:
         return FAIL('ia-modular-differs:%s:%s' % (kind, 'standard' if sem == 'standard' else 'ia'), desc + '\n' + msg, labels)
     io = {v: case['io'].get(v) for v in case['vars']}
